@@ -231,6 +231,37 @@ class Strategy:
         # the window rules read which samples a store covers from the bounds of its sample loop: a store that is made for some samples of that range
         # only (a per-sample choice of the piece) is another shape
         ia = _atom(self.i)
+
+        def absorb(sf, g) -> bool:
+            """a guard that compares the sample number with a bound free of it cuts the sample range: `i < c` ends it at c, `i >= c` starts it
+            there (the bound is taken to lie inside the loop's range, as the documented sub-ranges do)"""
+            neg = isinstance(g, P) and g.op == 'not' and len(g.args) == 1
+            q = g.args[0] if neg else g
+            if not (isinstance(q, P) and q.op == '<' and len(q.args) == 2 and all(isinstance(a_, Num) and a_.length is None for a_ in q.args)):
+                return False
+            a_, b_ = q.args[0].r, q.args[1].r
+            if a_ == self.i and ia not in sym.all_atoms(b_):
+                if neg:
+                    sf.lo = b_          # not (i < c): i >= c
+                else:
+                    sf.hi = b_          # i < c
+                return True
+            if b_ == self.i and ia not in sym.all_atoms(a_):
+                if neg:
+                    sf.hi = a_ + C(1)   # not (c < i): i <= c
+                else:
+                    sf.lo = a_ + C(1)   # c < i
+                return True
+            return False
+        for sf in self.stores:
+            if sf.single:
+                continue
+            rest = []
+            for g in sf.guard:
+                if any(ia in sym.all_atoms(r_) for r_ in g.rats()) and absorb(sf, g):
+                    continue
+                rest.append(g)
+            sf.guard = tuple(rest)
         for sf in self.stores:
             per_sample = [str(g)[:80] for g in sf.guard if any(ia in sym.all_atoms(r_) for r_ in g.rats())]
             if per_sample and not sf.single:
